@@ -165,6 +165,9 @@ func pakClassIn(p uint32) string {
 // direct evaluation of the C04 statement on the real functions for every address (SWEEP)
 // expected value of a swept function at address a, from its recorded page table
 func fromTable(tbl []pageLine, a uint32) (uint32, bool) {
+	if a >= 1<<24 { // a result outside the 24-bit space (reported as "range" where it is produced) is no table entry
+		return 0, false
+	}
 	ln := tbl[a/pageSize]
 	if ln.M == 0 {
 		return 0, false
@@ -176,6 +179,10 @@ func sweepC04(m mapperT, tb2p, tp2b []pageLine, is *issues) (nRI, nCol uint64) {
 	// the mappers are stateless functions: in a mixed sequence of calls in both directions every result must
 	// still be the one the single-direction sweep recorded, and lie inside a class window (C05)
 	stable := func(dir string, tbl []pageLine, a, r uint32, err error) {
+		if a >= 1<<24 {
+			is.add("range", m.name, dir, a, "address outside 24 bits passed on from a previous result")
+			return
+		}
 		want, ok := fromTable(tbl, a)
 		if tbl[a/pageSize].U == 0 {
 			return
